@@ -63,7 +63,7 @@ class QueryPlanner:
                     integration_name = predictor['integration_name']
                 else:
                     integration_name = self.predictor_namespace
-                    predictor['integration_name'] = integration_name
+                    predictor = dict(predictor, integration_name=integration_name)
                 idx = f'{integration_name}.{predictor["name"]}'.lower()
                 self.predictor_info[idx] = predictor
                 _projects.add(integration_name.lower())
@@ -75,7 +75,7 @@ class QueryPlanner:
                         integration_name = predictor['integration_name']
                     else:
                         integration_name = self.predictor_namespace
-                        predictor['integration_name'] = integration_name
+                        predictor = dict(predictor, integration_name=integration_name)
                     name = f'{integration_name}.{name}'.lower()
                     _projects.add(integration_name.lower())
 
@@ -118,6 +118,8 @@ class QueryPlanner:
         idx = '.'.join(idx_ar).lower()
         info = self.predictor_info.get(idx)
         if info is not None:
+            # don't change the metadata passed by the caller
+            info = dict(info)
             info['version'] = version
             info['name'] = name
         return info
